@@ -18,7 +18,7 @@ class Path:
                 continue
             if s.get('k') == 'DeclStmt' and env is not None:
                 ds = [d for d in (s.get('c') or ()) if d.get('k') == 'VarDecl']
-                if ds and all(env.is_alias(d) for d in ds):
+                if ds and all(env.is_alias(d) and env.pure_init(d) for d in ds):
                     continue
             out.append(s)
         return out
@@ -135,6 +135,20 @@ def enum_paths(stmt, limit=4000):
         if kind == 'CompoundStmt':
             return seq(list(s.get('c') or ()))
         if kind == 'ReturnStmt':
+            e = (s.get('c') or [None])[0]
+            x = e
+            while isinstance(x, dict) and x.get('k') in ('CXXConstructExpr', 'CXXFunctionalCastExpr') and len(x.get('c') or ()) == 1 and x['c'][0].get('k') in ('ConditionalOperator', 'CXXConstructExpr'):
+                x = x['c'][0]
+            if isinstance(x, dict) and x.get('k') == 'ConditionalOperator' and len(x.get('c') or ()) == 3:
+                # `return c ? a : b;` is `if (c) return a; else return b;`
+                out = []
+                for atoms, outcome in decisions(x['c'][0]):
+                    arm = x['c'][1] if outcome else x['c'][2]
+                    r = dict(s)
+                    r['c'] = [arm]
+                    for q in paths(r):
+                        out.append(Path(tuple(('if', n, pol) for n, pol in atoms) + q.conds, q.stmts, q.end, q.endnode))
+                return out
             return [Path((), (s,), 'return', s)]
         if kind == 'CXXThrowExpr':
             return [Path((), (s,), 'throw', s)]
